@@ -46,31 +46,29 @@ end C12
 
 /-! ## a stream refused for a full accept backlog is told so
 
-Since /repo's follow-up to 31ee1ad the refused stream is registered, counted and closed from this side
-(`Gen.Session.refusedStreamClosedActively`): the peer gets a stream-closing frame, so its writes fail and its readers
-return instead of waiting on a stream nobody will ever serve (the review of the fix commits found the silent
-refusal). The session model follows the fact; the closing frames each side has put on the wire are part of the state the
-correspondence compares after every operation (`sent=`). -/
+A stream that arrives while the accept queue is full is refused (31ee1ad: the blocking send under `streamsM` was the
+teardown hang). The refusal remembers the id as closed — later frames are dropped, the stream count is not touched — and
+queues the id for the session's one `tellRefusals` goroutine, which sends the peer a stream-closing frame: its writes
+fail and its readers return instead of waiting on a stream nobody will ever serve. (History: first silent — found by the
+review of the repairs; then a registered stream closed by a goroutine per refusal — found by the next review: unbounded
+goroutines and buffered frames under a peer that does not read; now a bounded queue and one sender.) The session model
+follows the facts; the closing frames each side has put on the wire are part of the state the correspondence compares
+after every operation (`sent=`). Assumed: the queue (as long as the backlog) is not full. -/
 namespace C12
 open SM
 
-theorem gen_refusal : Gen.Session.refusedStreamClosedActively = true ∧ Gen.Session.recvEnqueueNonBlocking = true := by decide
+theorem gen_refusal :
+    Gen.Session.refusedStreamClosedActively = false ∧ Gen.Session.refusedStreamToldFromQueue = true ∧
+    Gen.Session.recvEnqueueNonBlocking = true := by decide
 
-/-- **C12 (a told refusal leaves the bookkeeping as it found it).** In ANY state of a live session whose accept queue is
-full and in which no count update is in flight, the events of a refusal — the frame of an unknown stream `id` arrives
-(`recvNew`: refused), the stream is counted, then closed from this side (`csCAS`, tombstone, count--) — end with the id
-remembered as closed and the queue, the count and the rest of the table exactly as before: nothing drifts, whatever the
-number of refusals. -/
+/-- **C12 (a refusal leaves the bookkeeping as it found it).** In ANY state of a live session whose accept queue is full,
+the frame of an unknown stream `id` is refused, and afterwards the id is remembered as closed while the queue, the count,
+the pending updates and the rest of the table are exactly as before: nothing drifts, whatever the number of refusals. -/
 theorem c12_refusal_events (s : St) (id : Nat) (hcl : s.closed = false) (hid : hasId id s.tbl = false)
-    (hfull : Gen.Session.acceptBacklog ≤ (s.accq.length : Int)) (hp : s.pendIncr = 0) (hd : s.pendDecr = 0) :
-    (step s (.recvNew id)).2 = .refused ∧
-    (let s' := run s [.recvNew id, .recvIncr, .csCAS id, .csTomb id, .csDecr]
-     s'.accq = s.accq ∧ s'.count = s.count ∧ s'.tbl = (id, .tomb) :: s.tbl ∧ s'.pendIncr = 0 ∧ s'.pendDecr = 0 ∧
-     s'.closed = false) := by
+    (hfull : Gen.Session.acceptBacklog ≤ (s.accq.length : Int)) :
+    step s (.recvNew id) = ({ s with tbl := (id, .tomb) :: s.tbl }, .refused) := by
   have hg := gen_refusal.1
-  have hdec : Gen.Session.closeStreamDecrs = 1 := by decide
-  refine ⟨by simp [step, hcl, hid, hfull, hg], ?_⟩
-  simp [run, step, hcl, hid, hfull, hg, hp, hd, setEnt, hdec]
+  simp [step, hcl, hid, hfull, hg]
 
 /-- a side whose accept queue holds `acceptBacklog` streams receives the first frame of yet another stream -/
 def fullSide : SO.Side :=
